@@ -14,8 +14,11 @@ RULE = ('corpus; random pairwise dictionaries over 3..6 candidates (Kemeny <= 5)
         'condorcet.EVALUATORS, n_seats 1..|C|. Compared with the model (exact list, ties as sets) and judged by the declarative '
         'clauses: Condorcet winner elected alone; Kemeny refusal only when two best rankings differ within the first n places '
         '(brute-force argmax); Smith-efficient winner in the brute-force Smith set; nobody dropped when '
-        'n = |C|. non-trivial = no Condorcet winner or a pairwise tie or a missing reverse pair; distinct by case hash')
-PARTIAL = ['Benham / TidemanAlternative: covered with the STV model (C03/C04), not here']
+        'n = |C|. profile-derived: ranked profiles (truncation, bullet votes, shared ranks, unranked_at_bottom both ways) through the LIBRARY\'s '
+        'RankedToCondorcetVotes into every EVALUATORS entry, and Benham / TidemanAlternative on the profile itself, judged against the Condorcet winner / Smith set of an '
+        'INDEPENDENT pairwise count of the profile (harness). non-trivial = no Condorcet winner or a pairwise tie or a missing reverse pair; distinct by case hash')
+PARTIAL = ['Benham / TidemanAlternative: no Coq model; their Condorcet-winner and Smith clauses are judged on the implementation (stream profile-derived) '
+           'against an independent pairwise count of the ranked profile']
 TRUSTED = []
 METHODS = ['rankedpairs_winvotes', 'rankedpairs_margins', 'rankedpairs_pwo', 'copeland_2o', 'copeland_raw', 'schulze',
            'kemeny_young', 'minimax_winvotes', 'minimax_margins', 'minimax_pwo']
@@ -151,6 +154,98 @@ def gen_random(rng, count):
         yield dict(unit='condorcet', method=method, votes=v, n=rng.choice([1, 1, k, rng.randint(1, k)]))
 
 
+# ------------------------------------------------------------------ profile-derived: the library's converter + evaluator / the hybrids
+def ref_pairwise(prof, bottom=True):
+    """independent pairwise count of a ranked profile [[ballot, weight]...] (items: candidate number or list = shared rank):
+    a candidate counts over everybody ranked strictly below it on the ballot and, with unranked_at_bottom, over everybody the
+    ballot does not rank; members of a shared rank do not count against each other"""
+    allc = []
+    for b, _ in prof:
+        for it in b:
+            for x in (it if isinstance(it, list) else [it]):
+                if x not in allc:
+                    allc.append(x)
+    cnt = {}
+    for b, w in prof:
+        groups = [it if isinstance(it, list) else [it] for it in b]
+        ranked = [x for g in groups for x in g]
+        tail = [x for x in allc if x not in ranked] if bottom else []
+        for i, g in enumerate(groups):
+            lower = [x for h in groups[i + 1:] for x in h] + tail
+            for a in g:
+                for x in lower:
+                    cnt[a, x] = cnt.get((a, x), 0) + w
+    return [[[a, x], n] for (a, x), n in cnt.items()], allc
+
+
+HYBRIDS = ('benham', 'tideman_alt')
+
+
+def derived_case(ctx, stream, prof, bottom, method):
+    """-> 1 if the case deviates"""
+    import evalreg
+    import votelib.evaluate.core as core, votelib.convert as conv, votelib.evaluate.condorcet as cd, votelib.evaluate.sequential as seq
+    hybrid = method in HYBRIDS
+    v, allc = ref_pairwise(prof, bottom)
+    if len(allc) < 2 or (method == 'kemeny_young' and len(allc) > 5):
+        return None
+    py = evalreg.to_python('ranked', prof)
+    if hybrid:
+        ev = seq.Benham() if method == 'benham' else seq.TidemanAlternative()
+    else:
+        ev = core.PreConverted(conv.RankedToCondorcetVotes(unranked_at_bottom=bottom), cd.EVALUATORS[method])
+    r = common.call_impl(lambda: [tuple(sorted(common.cnum(x) for x in k)) if isinstance(k, core.Tie) else common.cnum(k) for k in ev.evaluate(py, 1)], 10)
+    ctx.evaluations += 1
+    ctx.dist['stream:' + stream] += 1
+    ctx.dist['derived:' + method] += 1
+    cw = pw.ref_cw(v)
+    case = dict(kind='profile-derived', method=method, profile=prof, bottom=bottom, n=1)
+    if not cw:
+        ctx.nontrivial.add(common.case_hash(case))
+    why = None
+    if r[0] != 'ok':
+        if cw and (method in CW_METHODS or hybrid):
+            why = 'refuses (%s) although %s is the Condorcet winner of the profile' % (common.E_NAME.get(r[1], r[1]), cw)
+        else:
+            ctx.dist['derived:refusal-without-cw'] += 1
+    else:
+        res = r[1]
+        if cw and (method in CW_METHODS or hybrid) and res != [cw[0]]:
+            why = 'Condorcet winner %s of the profile (independent pairwise count) not elected alone: %s' % (cw, res)
+        elif (method in SMITH_METHODS or hybrid) and len(res) == 1 and not isinstance(res[0], tuple):
+            sm = pw.ref_smith(v)
+            # a candidate the ballots never compare with anybody is not in the converted dictionary at all
+            if res[0] in {x for (a, b), _ in v for x in (a, b)} and res[0] not in sm:
+                why = 'winner %s outside the Smith set %s of the profile' % (res, sm)
+    if why:
+        ctx.checker_false += 1
+        ctx.report(stream, case, str(r[1:]), 'n/a', '%s: %s' % (method, why))
+        return 1
+    return 0
+
+
+def profile_derived(ctx, stream, count, rng):
+    import evalreg
+    bad = n = 0
+    for i in range(count):
+        hybrid = i % 3 == 0
+        prof = evalreg.gen_profile(rng, 'ranked', m=rng.randint(3, 5), shared=(not hybrid and rng.random() < 0.3))
+        if rng.random() < 0.35:        # bullet votes / short ballots carry the majorities
+            merged = {}
+            for b, w in prof:
+                b = b[:rng.randint(1, 2)]
+                merged[repr(b)] = [b, merged.get(repr(b), [b, 0])[1] + w]
+            prof = list(merged.values())
+        bottom = True if hybrid else rng.random() < 0.7
+        method = rng.choice(HYBRIDS) if hybrid else rng.choice(METHODS)
+        d = derived_case(ctx, stream, prof, bottom, method)
+        if d is None:
+            continue
+        n += 1
+        bad += d
+    ctx.streams[stream] = dict(cases=n, deviations=bad)
+
+
 def corpus():
     import os, json, glob
     for p in sorted(glob.glob(os.path.join(common.VERIF, 'corpus', ID, '*.json'))):
@@ -161,7 +256,11 @@ def explore(ctx, widen=1):
     kw = dict(canon=canon, nontrivial=nontrivial, spec=spec, known_class=known_class, limit=20)
     ctx.differential('corpus', corpus(), model_line, impl, **kw)
     ctx.differential('random', gen_random(ctx.rng, ctx.n(3000, 40000) * widen), model_line, impl, **kw)
+    profile_derived(ctx, 'profile-derived', ctx.n(1500, 20000) * widen, ctx.rng)
 
 
 def replay(ctx, case, stream=None):
+    if case.get('kind') == 'profile-derived':
+        derived_case(ctx, 'replay', case['profile'], case['bottom'], case['method'])
+        return
     ctx.differential('replay', [case], model_line, impl, canon=canon, nontrivial=nontrivial, spec=spec, known_class=known_class)
